@@ -67,8 +67,15 @@ LINES_SHORT_EXTRA = [
     ("s-msg+text", J + '"id":2,"result":{}} x\u00e9'),
     ("s-control", J + '"id":3,"result":"\u00e9"}'),   # a valid line, so that the group has more than one outcome
 ]
-TABLES = {"long": LINES_LONG, "short": LINES_SHORT, "extra": LINES_EXTRA, "short-extra": LINES_SHORT_EXTRA,
-          "long+extra": LINES_LONG + LINES_EXTRA}
+# junk lines that START with a 2-, 3- and 4-byte character (a read may end inside the very first character of a line)
+LINES_MB_START = [
+    ("junk-2byte-start", "\u00fc junk {"),
+    ("junk-3byte-start", "\u20ac not json"),
+    ("junk-4byte-start", "\U0001F600 [junk"),
+]
+LISTENERS = [None, "parked", "busy", "one-item"]   # who is reading client.notifications while the reader routes
+TABLES = {"mb-start": LINES_MB_START, "long+mb": LINES_LONG + LINES_MB_START, "long": LINES_LONG, "short": LINES_SHORT, "extra": LINES_EXTRA, "short-extra": LINES_SHORT_EXTRA,
+          "long+extra": LINES_LONG + LINES_EXTRA, "short+mb": LINES_SHORT + LINES_MB_START}
 VERSIONS = [None, "2025-03-26", "2025-06-18"]   # None = set_protocol_version is never called
 SENTINEL = J + '"id":"END","result":{}}'
 TERMS = {"LF": "\n", "CRLF": "\r\n"}
@@ -161,7 +168,7 @@ def run_one(ctl: explorer.Ctl, cfg: Dict[str, Any]) -> Dict[str, Any]:
     cuts = cfg["cuts"]
     bounds = [0] + list(cuts) + [len(data)]
     chunks = [data[a:b] for a, b in zip(bounds, bounds[1:])]
-    loop = new_loop(horizon=30)
+    loop = new_loop(horizon=30 if not cfg.get("listener") else 400)
     q = seams.Quiescence(loop)
     proc = seams.FakeProcess()
     got: List[Any] = []
@@ -174,8 +181,33 @@ def run_one(ctl: explorer.Ctl, cfg: Dict[str, Any]) -> Dict[str, Any]:
                 read, write = client.get_streams()
                 if cfg.get("version"):
                     client.set_protocol_version(cfg["version"])
+                listener = None
+                if cfg.get("listener"):
+                    import asyncio as _aio
+
+                    async def listen(kind=cfg["listener"]):
+                        # somebody consumes the notification side channel while the reader is routing
+                        try:
+                            while True:
+                                notes.append(await client.notifications.receive())
+                                if kind == "one-item":
+                                    return
+                                if kind == "busy":
+                                    await _aio.sleep(0.5)      # virtual: not back in receive() for a while
+                        except (anyio.EndOfStream, anyio.ClosedResourceError):
+                            return
+
+                    listener = loop.create_task(listen())
+                    await q.settle()                           # the listener is parked in receive() before any byte arrives
                 for ch in chunks:
                     proc.stdout.feed(ch)
+                    await q.settle()
+                if listener is not None:
+                    import asyncio as _aio
+
+                    await _aio.sleep(200.0)                    # virtual: a busy listener has come back as often as it can
+                    await q.settle()
+                    listener.cancel()
                     await q.settle()
                 # drain until nothing more arrives (a reader blocked on a full stream continues once there is room)
                 for _ in range(20):
@@ -197,9 +229,12 @@ def run_one(ctl: explorer.Ctl, cfg: Dict[str, Any]) -> Dict[str, Any]:
     loop.abandon()
     obs: Dict[str, Any] = {"status": status, "lines": names, "cuts": cuts}
     vtag: Dict[str, Any] = {}
+    if cfg.get("listener"):
+        obs["listener"] = cfg["listener"]
+        vtag = {"notification_listener": cfg["listener"]}
     if "version" in cfg:
         obs["version"] = cfg["version"]
-        vtag = {"batches": "accepted" if batches_accepted(cfg["version"]) else "rejected"}
+        vtag = {**vtag, "batches": "accepted" if batches_accepted(cfg["version"]) else "rejected"}
     viol = []
     if status != "ok":
         obs["outcome"] = status
@@ -248,7 +283,13 @@ def run_one(ctl: explorer.Ctl, cfg: Dict[str, Any]) -> Dict[str, Any]:
                      "msg": f"lines={names} cuts={cuts} version={cfg.get('version')}: delivered {got_ids} expected {exp_ids}"})
     # the notification side channel is "offered" (best effort, 100 slots, never back-pressures): when more than 100
     # notifications are pending there, it must hold a prefix of them; otherwise all of them
-    if len(exp_notes) > 100:
+    if len(exp_notes) > 100 and cfg.get("listener"):
+        # a consumer frees slots while the reader keeps offering: what was dropped need not be a suffix any more;
+        # still at least 100 of them, each at most once, in order
+        it = iter(exp_notes)
+        is_subseq = all(any(strict_eq(norm(d), norm(e)) for e in it) for d in dnotes)
+        exp_notes_cmp = dnotes if (is_subseq and len(dnotes) >= 100) else exp_notes
+    elif len(exp_notes) > 100:
         exp_notes_cmp = exp_notes[: len(dnotes)] if 100 <= len(dnotes) <= len(exp_notes) else exp_notes
     else:
         exp_notes_cmp = exp_notes
@@ -570,6 +611,65 @@ def configs_for(tier: str):
         for a, b in itertools.combinations(range(1, n), 2):
             g.append({"stream": s, "cuts": [a, b]})
     groups["pair-cuts-junk-with-message-prefix"] = g
+    # (7) four reads: the first ends inside a multi-byte character or a CRLF, the second exactly after a line terminator,
+    #     the third anywhere behind it - on streams whose first line STARTS with a multi-byte character (or is the
+    #     multi-byte response / CRLF-terminated), followed by one more line
+    g = []
+    first = streams("mb-start", 1) + [u for u in streams("long", 1) if stream_bytes(u)[1][0] in
+                                      ("junk-utf8/LF", "junk-utf8/CRLF", "resp-utf8/LF", "resp-ascii/CRLF")]
+    second_names = ("resp-ascii/LF", "resp-utf8/CRLF", "notif/LF", "junk/LF", "blank/LF", "junk-utf8/LF") if tier != "thorough" else None
+    second = [u for u in streams("long+mb", 1) if second_names is None or stream_bytes(u)[1][0] in second_names]
+    for a in first:
+        for b in second:
+            ta, tb = TABLES[a["table"]], TABLES[b["table"]]
+            # express both lines in the common table
+            common = "long+mb"
+            ia = [n for n, _ in TABLES[common]].index(ta[a["lines"][0] // 2][0]) * 2 + a["lines"][0] % 2
+            ib = [n for n, _ in TABLES[common]].index(tb[b["lines"][0] // 2][0]) * 2 + b["lines"][0] % 2
+            st = {"table": common, "lines": [ia, ib]}
+            data = stream_bytes(st)[0]
+            ends = [i + 1 for i, x in enumerate(data) if x == 0x0A][:-1]        # right after a line terminator
+            for c1 in interesting_positions(data):
+                for c2 in ends:
+                    if c2 <= c1:
+                        continue
+                    for c3 in range(c2 + 1, len(data)):
+                        g.append({"stream": st, "cuts": [c1, c2, c3]})
+    groups["four-reads-split-character-then-line-boundary"] = g
+    # (8) somebody listens on the notification side channel: parked in receive(), busy between receives, or gone after
+    #     the first item - the main read stream must not care
+    g = []
+    for s in streams("long", 1):
+        n = len(stream_bytes(s)[0])
+        for lst in LISTENERS[1:]:
+            g.append({"stream": s, "cuts": [], "listener": lst})
+            for c in (range(1, n) if tier == "thorough" else interesting_positions(stream_bytes(s)[0])):
+                g.append({"stream": s, "cuts": [c], "listener": lst})
+    for s in streams("long", 2):
+        for lst in LISTENERS[1:]:
+            g.append({"stream": s, "cuts": [], "listener": lst})
+    for nb in (99, 101, 260):
+        st = {"table": "burst", "n": nb}
+        L = len(stream_bytes(st)[0])
+        for lst in LISTENERS[1:]:
+            g.append({"stream": st, "cuts": [], "listener": lst})
+            g.append({"stream": st, "cuts": list(range(64, L, 64)), "listener": lst})
+    groups["somebody-listens-on-the-notification-stream"] = g
+    if tier == "thorough":
+        # every triple of cuts on the short streams that begin with a multi-byte junk line
+        g = []
+        for k, a in enumerate([u for u in streams("mb-start", 1) if u["lines"][0] % 2 == 0]):   # LF-terminated
+            # a different kind of second line for each (notification, response, junk)
+            want = ("s-notif/LF", "s-resp/LF", "s-junk/LF")[k % 3]
+            for b in [u for u in streams("short", 1) if stream_bytes(u)[1][0] == want]:
+                names_c = [n for n, _ in TABLES["short+mb"]]
+                ia = names_c.index(TABLES["mb-start"][a["lines"][0] // 2][0]) * 2 + a["lines"][0] % 2
+                ib = names_c.index(TABLES["short"][b["lines"][0] // 2][0]) * 2 + b["lines"][0] % 2
+                st = {"table": "short+mb", "lines": [ia, ib]}
+                n = len(stream_bytes(st)[0])
+                for cs in itertools.combinations(range(1, n), 3):
+                    g.append({"stream": st, "cuts": list(cs)})
+        groups["triple-cuts-after-multibyte-junk-start"] = g
     if tier == "thorough":
         g = []
         for s in streams("short", 1):
@@ -616,7 +716,12 @@ def run(tier: str, only=None) -> core.Result:
         "array lines ([1,2], [], [\"x\"], [response], [[ ]]) x {no version, 2025-03-26, 2025-06-18} at every cut of one-line "
         "streams and of two-line streams (quick: reduced neighbour set, every cut only without version on LF-terminated pairs of "
         "the new lines, otherwise uncut + cuts inside characters / CRLF); every pair of cuts "
-        "on short junk-with-message-prefix lines; two connections alive on one loop: pairs of one-line streams x a cut of A "
+        "on short junk-with-message-prefix lines; four reads on two-line streams whose first line starts with a 2-/3-/4-byte "
+        "character (or is a multi-byte / CRLF line): first cut inside a character or CRLF, second cut exactly after a line "
+        "terminator, third cut at every later position (thorough: every second line of the alphabet, and every triple of cuts "
+        "on short such streams); a consumer of client.notifications in {parked in receive(), busy 0.5 virtual s between "
+        "receives, gone after the first item} x one-line streams (uncut + cuts inside characters / CRLF; thorough every cut), "
+        "two-line streams uncut, bursts of 99/101/260 lines; two connections alive on one loop: pairs of one-line streams x a cut of A "
         "inside every multi-byte character / CRLF (thorough: every position) x B uncut or cut likewise x every interleaving "
         "of A's feeds with B's start and feeds; "
         "distinct = distinct observation digests"
@@ -628,5 +733,8 @@ def run(tier: str, only=None) -> core.Result:
         "array lines: while batches are accepted (no version negotiated or one before 2025-06-18) the valid members are "
         "delivered in order, otherwise nothing of the array; what is written back to the child is C13's subject and not judged here",
         "two live connections are entered and left properly nested in one task (A, then B; B left first)",
+        "with a consumer on the notification side channel and more than 100 notifications pending, the side channel may drop "
+        "in the middle: then at least 100 of them, each once, in order, are required there; the main read stream is judged "
+        "exactly as without a consumer",
     ]
     return res
